@@ -241,6 +241,17 @@ package stick
 //@ pred stackOf(s *state) = s.scope.scopes
 
 //@ func stick.(*state).walk
+// C09: an extending template appends its parent's block table at the end of the chain before its own use statements
+// are processed, then renders the parent's root (its own body is only scanned by walkChild, which renders nothing);
+// a block node renders the most derived definition, as current block, under its defining template's name
+//@   at "s.walkChild(node.BodyNode)" named: s.name == name
+//@   after "append(s.blocks, tree.Blocks())" last: len(result) >= 1
+//@   at "s.walk(block.Body)" ctx: s.current == block && (block.Origin != "" ==> s.name == block.Origin)
+// C03: a text node appends exactly its data to the current writer; a comment node writes nothing
+//@   asserts@*parse.TextNode text: err == nil ==> rbuflen(ref(s.out)) == old(rbuflen(ref(s.out))) + len(node.Data) && (forall i trig :: 0 <= i && i < len(node.Data) ==> rbufdata(ref(s.out))[old(rbuflen(ref(s.out))) + i] == node.Data[i])
+//@   ensures comment: istype(node, "*parse.CommentNode") ==> err == nil && rbuflen(ref(old(s.out))) == old(rbuflen(ref(s.out)))
+// (the children of a body are walked by a plain range loop over node.All(): slice order, each once - code shape)
+//@   at "s.walk(c)" child: c != nil
 // C06: an if node walks its body exactly when the condition is truthy, else its else-part
 //@   at "s.walk(node.Body)" then: truthspec(v)
 //@   at "s.walk(node.Else)" otherwise: !truthspec(v)
@@ -276,12 +287,12 @@ package stick
 //@   ensures name: s.name == old(s.name) && s.current == old(s.current) && s.env == old(s.env)
 //@   ensures blocks: len(s.blocks) >= old(len(s.blocks))
 //@   ensures others: forall p trig :: allocated(p) && p != old(s.scope) ==> fld("stick.scopeStack", "scopes", p) == old(fld("stick.scopeStack", "scopes", p))
-// C08/C17: only the current writer receives output
-//@   ensures wframe: forall w trig :: allocated(w) && w != ref(old(s.out)) ==> rbuflen(w) == old(rbuflen(w)) && rbufdata(w) == old(rbufdata(w))
+// C09: processing use / import / from statements (and the body of an extending template) renders nothing
+//@   ensures quiet: forall w trig :: allocated(w) ==> rbuflen(w) == old(rbuflen(w)) && rbufdata(w) == old(rbufdata(w))
 // A11 (trusted, not proved): states are separate — executing on one state does not modify the list of
 // scope maps of another state's scope stack (ownership of backing arrays is not modelled).
 //@   trusts sep: forall p, i :: allocated(p) && p != old(s.scope) && 0 <= i && i < old(len(fld("stick.scopeStack", "scopes", p))) ==> fld("stick.scopeStack", "scopes", p)[i] == old(fld("stick.scopeStack", "scopes", p)[i])
-//@   loop 1 invariant frame: xinv(s) && s.scope == old(s.scope) && len(s.scope.scopes) == old(len(s.scope.scopes)) && (forall i trig :: 0 <= i && i < len(s.scope.scopes) ==> s.scope.scopes[i] == old(s.scope.scopes[i])) && s.name == old(s.name) && s.current == old(s.current) && s.env == old(s.env) && len(s.blocks) >= old(len(s.blocks)) && (forall p trig :: allocated(p) && p != old(s.scope) ==> fld("stick.scopeStack", "scopes", p) == old(fld("stick.scopeStack", "scopes", p))) && s.out == old(s.out) && (forall w trig :: allocated(w) && w != ref(old(s.out)) ==> rbuflen(w) == old(rbuflen(w)) && rbufdata(w) == old(rbufdata(w))) && (wfail() ==> old(wfail())) && openfiles() == old(openfiles()) && (wafterfail() ==> old(wafterfail()) || old(wfail()))
+//@   loop 1 invariant frame: xinv(s) && s.scope == old(s.scope) && len(s.scope.scopes) == old(len(s.scope.scopes)) && (forall i trig :: 0 <= i && i < len(s.scope.scopes) ==> s.scope.scopes[i] == old(s.scope.scopes[i])) && s.name == old(s.name) && s.current == old(s.current) && s.env == old(s.env) && len(s.blocks) >= old(len(s.blocks)) && (forall p trig :: allocated(p) && p != old(s.scope) ==> fld("stick.scopeStack", "scopes", p) == old(fld("stick.scopeStack", "scopes", p))) && s.out == old(s.out) && (forall w trig :: allocated(w) ==> rbuflen(w) == old(rbuflen(w)) && rbufdata(w) == old(rbufdata(w))) && (wfail() ==> old(wfail())) && openfiles() == old(openfiles()) && (wafterfail() ==> old(wafterfail()) || old(wfail()))
 
 //@ func stick.(*state).walkForNode
 // C06: the else branch runs exactly when no element was visited and nothing failed
@@ -340,6 +351,9 @@ package stick
 //@   loop 3 invariant frame: xinv(s) && s.scope == old(s.scope) && len(s.scope.scopes) == old(len(s.scope.scopes)) && (forall i trig :: 0 <= i && i < len(s.scope.scopes) ==> s.scope.scopes[i] == old(s.scope.scopes[i])) && s.name == old(s.name) && s.current == old(s.current) && s.env == old(s.env) && len(s.blocks) >= old(len(s.blocks)) && (forall p trig :: allocated(p) && p != old(s.scope) ==> fld("stick.scopeStack", "scopes", p) == old(fld("stick.scopeStack", "scopes", p))) && s.out == old(s.out) && (forall w trig :: allocated(w) && w != ref(old(s.out)) ==> rbuflen(w) == old(rbuflen(w)) && rbufdata(w) == old(rbufdata(w))) && (wfail() ==> old(wfail())) && openfiles() == old(openfiles()) && (wafterfail() ==> old(wafterfail()) || old(wfail()))
 
 //@ func stick.(*state).walkUseNode
+// C09: the used template's blocks are inserted just above the last table of the chain (for an extending template:
+// below its own blocks, above its ancestors'); every other table keeps its place
+//@   asserts rank: err == nil ==> len(s.blocks) == l + 1 && s.blocks[l] == lb && s.blocks[l - 1] == blocks
 //@   propagates
 //@   ensures wfail: wfail() && !old(wfail()) ==> err != nil
 //@   ensures order: wafterfail() ==> old(wafterfail()) || old(wfail())
@@ -351,12 +365,12 @@ package stick
 //@   ensures name: s.name == old(s.name) && s.current == old(s.current) && s.env == old(s.env)
 //@   ensures blocks: len(s.blocks) >= old(len(s.blocks))
 //@   ensures others: forall p trig :: allocated(p) && p != old(s.scope) ==> fld("stick.scopeStack", "scopes", p) == old(fld("stick.scopeStack", "scopes", p))
-// C08/C17: only the current writer receives output
-//@   ensures wframe: forall w trig :: allocated(w) && w != ref(old(s.out)) ==> rbuflen(w) == old(rbuflen(w)) && rbufdata(w) == old(rbufdata(w))
+// C09: processing use / import / from statements (and the body of an extending template) renders nothing
+//@   ensures quiet: forall w trig :: allocated(w) ==> rbuflen(w) == old(rbuflen(w)) && rbufdata(w) == old(rbufdata(w))
 // A11 (trusted, not proved): states are separate — executing on one state does not modify the list of
 // scope maps of another state's scope stack (ownership of backing arrays is not modelled).
 //@   trusts sep: forall p, i :: allocated(p) && p != old(s.scope) && 0 <= i && i < old(len(fld("stick.scopeStack", "scopes", p))) ==> fld("stick.scopeStack", "scopes", p)[i] == old(fld("stick.scopeStack", "scopes", p)[i])
-//@   loop 1 invariant frame: xinv(s) && s.scope == old(s.scope) && len(s.scope.scopes) == old(len(s.scope.scopes)) && (forall i trig :: 0 <= i && i < len(s.scope.scopes) ==> s.scope.scopes[i] == old(s.scope.scopes[i])) && s.name == old(s.name) && s.current == old(s.current) && s.env == old(s.env) && len(s.blocks) >= old(len(s.blocks)) && (forall p trig :: allocated(p) && p != old(s.scope) ==> fld("stick.scopeStack", "scopes", p) == old(fld("stick.scopeStack", "scopes", p))) && s.out == old(s.out) && (forall w trig :: allocated(w) && w != ref(old(s.out)) ==> rbuflen(w) == old(rbuflen(w)) && rbufdata(w) == old(rbufdata(w))) && (wfail() ==> old(wfail())) && openfiles() == old(openfiles()) && (wafterfail() ==> old(wafterfail()) || old(wfail()))
+//@   loop 1 invariant frame: xinv(s) && s.scope == old(s.scope) && len(s.scope.scopes) == old(len(s.scope.scopes)) && (forall i trig :: 0 <= i && i < len(s.scope.scopes) ==> s.scope.scopes[i] == old(s.scope.scopes[i])) && s.name == old(s.name) && s.current == old(s.current) && s.env == old(s.env) && len(s.blocks) >= old(len(s.blocks)) && (forall p trig :: allocated(p) && p != old(s.scope) ==> fld("stick.scopeStack", "scopes", p) == old(fld("stick.scopeStack", "scopes", p))) && s.out == old(s.out) && (forall w trig :: allocated(w) ==> rbuflen(w) == old(rbuflen(w)) && rbufdata(w) == old(rbufdata(w))) && (wfail() ==> old(wfail())) && openfiles() == old(openfiles()) && (wafterfail() ==> old(wafterfail()) || old(wfail()))
 
 //@ func stick.(*state).walkSetNode
 // C08: a set..endset capture assigns exactly what the body wrote into the private buffer
@@ -432,12 +446,12 @@ package stick
 //@   ensures name: s.name == old(s.name) && s.current == old(s.current) && s.env == old(s.env)
 //@   ensures blocks: len(s.blocks) >= old(len(s.blocks))
 //@   ensures others: forall p trig :: allocated(p) && p != old(s.scope) ==> fld("stick.scopeStack", "scopes", p) == old(fld("stick.scopeStack", "scopes", p))
-// C08/C17: only the current writer receives output
-//@   ensures wframe: forall w trig :: allocated(w) && w != ref(old(s.out)) ==> rbuflen(w) == old(rbuflen(w)) && rbufdata(w) == old(rbufdata(w))
+// C09: processing use / import / from statements (and the body of an extending template) renders nothing
+//@   ensures quiet: forall w trig :: allocated(w) ==> rbuflen(w) == old(rbuflen(w)) && rbufdata(w) == old(rbufdata(w))
 // A11 (trusted, not proved): states are separate — executing on one state does not modify the list of
 // scope maps of another state's scope stack (ownership of backing arrays is not modelled).
 //@   trusts sep: forall p, i :: allocated(p) && p != old(s.scope) && 0 <= i && i < old(len(fld("stick.scopeStack", "scopes", p))) ==> fld("stick.scopeStack", "scopes", p)[i] == old(fld("stick.scopeStack", "scopes", p)[i])
-//@   loop 1 invariant frame: xinv(s) && s.scope == old(s.scope) && len(s.scope.scopes) == old(len(s.scope.scopes)) && (forall i trig :: 0 <= i && i < len(s.scope.scopes) ==> s.scope.scopes[i] == old(s.scope.scopes[i])) && s.name == old(s.name) && s.current == old(s.current) && s.env == old(s.env) && len(s.blocks) >= old(len(s.blocks)) && (forall p trig :: allocated(p) && p != old(s.scope) ==> fld("stick.scopeStack", "scopes", p) == old(fld("stick.scopeStack", "scopes", p))) && s.out == old(s.out) && (forall w trig :: allocated(w) && w != ref(old(s.out)) ==> rbuflen(w) == old(rbuflen(w)) && rbufdata(w) == old(rbufdata(w))) && (wfail() ==> old(wfail())) && openfiles() == old(openfiles()) && (wafterfail() ==> old(wafterfail()) || old(wfail()))
+//@   loop 1 invariant frame: xinv(s) && s.scope == old(s.scope) && len(s.scope.scopes) == old(len(s.scope.scopes)) && (forall i trig :: 0 <= i && i < len(s.scope.scopes) ==> s.scope.scopes[i] == old(s.scope.scopes[i])) && s.name == old(s.name) && s.current == old(s.current) && s.env == old(s.env) && len(s.blocks) >= old(len(s.blocks)) && (forall p trig :: allocated(p) && p != old(s.scope) ==> fld("stick.scopeStack", "scopes", p) == old(fld("stick.scopeStack", "scopes", p))) && s.out == old(s.out) && (forall w trig :: allocated(w) ==> rbuflen(w) == old(rbuflen(w)) && rbufdata(w) == old(rbufdata(w))) && (wfail() ==> old(wfail())) && openfiles() == old(openfiles()) && (wafterfail() ==> old(wafterfail()) || old(wfail()))
 
 //@ func stick.(*state).walkFromNode
 //@   propagates
@@ -451,12 +465,12 @@ package stick
 //@   ensures name: s.name == old(s.name) && s.current == old(s.current) && s.env == old(s.env)
 //@   ensures blocks: len(s.blocks) >= old(len(s.blocks))
 //@   ensures others: forall p trig :: allocated(p) && p != old(s.scope) ==> fld("stick.scopeStack", "scopes", p) == old(fld("stick.scopeStack", "scopes", p))
-// C08/C17: only the current writer receives output
-//@   ensures wframe: forall w trig :: allocated(w) && w != ref(old(s.out)) ==> rbuflen(w) == old(rbuflen(w)) && rbufdata(w) == old(rbufdata(w))
+// C09: processing use / import / from statements (and the body of an extending template) renders nothing
+//@   ensures quiet: forall w trig :: allocated(w) ==> rbuflen(w) == old(rbuflen(w)) && rbufdata(w) == old(rbufdata(w))
 // A11 (trusted, not proved): states are separate — executing on one state does not modify the list of
 // scope maps of another state's scope stack (ownership of backing arrays is not modelled).
 //@   trusts sep: forall p, i :: allocated(p) && p != old(s.scope) && 0 <= i && i < old(len(fld("stick.scopeStack", "scopes", p))) ==> fld("stick.scopeStack", "scopes", p)[i] == old(fld("stick.scopeStack", "scopes", p)[i])
-//@   loop 1 invariant frame: xinv(s) && s.scope == old(s.scope) && len(s.scope.scopes) == old(len(s.scope.scopes)) && (forall i trig :: 0 <= i && i < len(s.scope.scopes) ==> s.scope.scopes[i] == old(s.scope.scopes[i])) && s.name == old(s.name) && s.current == old(s.current) && s.env == old(s.env) && len(s.blocks) >= old(len(s.blocks)) && (forall p trig :: allocated(p) && p != old(s.scope) ==> fld("stick.scopeStack", "scopes", p) == old(fld("stick.scopeStack", "scopes", p))) && s.out == old(s.out) && (forall w trig :: allocated(w) && w != ref(old(s.out)) ==> rbuflen(w) == old(rbuflen(w)) && rbufdata(w) == old(rbufdata(w))) && (wfail() ==> old(wfail())) && openfiles() == old(openfiles()) && (wafterfail() ==> old(wafterfail()) || old(wfail()))
+//@   loop 1 invariant frame: xinv(s) && s.scope == old(s.scope) && len(s.scope.scopes) == old(len(s.scope.scopes)) && (forall i trig :: 0 <= i && i < len(s.scope.scopes) ==> s.scope.scopes[i] == old(s.scope.scopes[i])) && s.name == old(s.name) && s.current == old(s.current) && s.env == old(s.env) && len(s.blocks) >= old(len(s.blocks)) && (forall p trig :: allocated(p) && p != old(s.scope) ==> fld("stick.scopeStack", "scopes", p) == old(fld("stick.scopeStack", "scopes", p))) && s.out == old(s.out) && (forall w trig :: allocated(w) ==> rbuflen(w) == old(rbuflen(w)) && rbufdata(w) == old(rbufdata(w))) && (wfail() ==> old(wfail())) && openfiles() == old(openfiles()) && (wafterfail() ==> old(wafterfail()) || old(wfail()))
 
 //@ func stick.(*state).evalExpr
 // (the lookup error of GetAttr is discarded by design: missing attributes render empty, C16)
@@ -484,9 +498,6 @@ package stick
 //@   loop 5 invariant frame: xinv(s) && s.scope == old(s.scope) && len(s.scope.scopes) == old(len(s.scope.scopes)) && (forall i trig :: 0 <= i && i < len(s.scope.scopes) ==> s.scope.scopes[i] == old(s.scope.scopes[i])) && s.name == old(s.name) && s.current == old(s.current) && s.env == old(s.env) && len(s.blocks) >= old(len(s.blocks)) && (forall p trig :: allocated(p) && p != old(s.scope) ==> fld("stick.scopeStack", "scopes", p) == old(fld("stick.scopeStack", "scopes", p))) && s.out == old(s.out) && (forall w trig :: allocated(w) ==> rbuflen(w) == old(rbuflen(w)) && rbufdata(w) == old(rbufdata(w))) && (wfail() ==> old(wfail())) && openfiles() == old(openfiles()) && (wafterfail() ==> old(wafterfail()) || old(wfail()))
 
 //@ func stick.(*state).evalFunction
-// C08: parent() and block(name) return exactly what the block body wrote into the private buffer
-//@   asserts@"parent" captured: r1 == nil ==> istype(r0, "string") && unbox(r0, "string") == bufstr(buf)
-//@   asserts@"block" captured: r1 == nil ==> istype(r0, "string") && unbox(r0, "string") == bufstr(buf)
 //@   propagates
 //@   ensures wfail: wfail() && !old(wfail()) ==> err != nil
 //@   ensures order: wafterfail() ==> old(wafterfail()) || old(wfail())
@@ -553,12 +564,42 @@ package stick
 //@   trusts sep: forall p, i :: allocated(p) && p != old(s.scope) && 0 <= i && i < old(len(fld("stick.scopeStack", "scopes", p))) ==> fld("stick.scopeStack", "scopes", p)[i] == old(fld("stick.scopeStack", "scopes", p)[i])
 //@   loop 1 invariant frame: xinv(s) && s.scope == old(s.scope) && s.name == old(s.name) && s.current == old(s.current) && s.env == old(s.env) && len(s.blocks) >= old(len(s.blocks)) && (forall p trig :: allocated(p) && p != old(s.scope) ==> fld("stick.scopeStack", "scopes", p) == old(fld("stick.scopeStack", "scopes", p))) && s.out == old(s.out) && len(s.scope.scopes) == old(len(s.scope.scopes)) + 1 && (forall i trig :: 0 <= i && i < old(len(s.scope.scopes)) ==> s.scope.scopes[i] == old(s.scope.scopes[i])) && rangeindex >= -1
 
+//@ func stick.(*state).walkBlockBody
+//@   propagates
+// C08/C09: block() and parent() return exactly what the block body wrote into the private buffer; the body is rendered
+// with the block as current block and its defining template as current name (restored afterwards)
+//@   requires blk: blk != nil && blk.Body != nil
+//@   at "s.walk(blk.Body)" ctx: s.current == blk && fresh(ref(s.out)) && (blk.Origin != "" ==> s.name == blk.Origin)
+//@   asserts captured: err == nil ==> istype(r0, "string") && unbox(r0, "string") == bufstr(buf)
+//@   ensures wfail: wfail() && !old(wfail()) ==> err != nil
+//@   ensures order: wafterfail() ==> old(wafterfail()) || old(wfail())
+//@   ensures files: openfiles() == old(openfiles())
+//@   requires xinv(s)
+//@   ensures inv: xinv(s)
+//@   ensures out: err == nil ==> s.out == old(s.out)
+//@   ensures scope: s.scope == old(s.scope) && len(s.scope.scopes) == old(len(s.scope.scopes)) && (forall i trig :: 0 <= i && i < len(s.scope.scopes) ==> s.scope.scopes[i] == old(s.scope.scopes[i]))
+//@   ensures name: s.name == old(s.name) && s.current == old(s.current) && s.env == old(s.env)
+//@   ensures blocks: len(s.blocks) >= old(len(s.blocks))
+//@   ensures others: forall p trig :: allocated(p) && p != old(s.scope) ==> fld("stick.scopeStack", "scopes", p) == old(fld("stick.scopeStack", "scopes", p))
+// C08: expressions, macro calls, block()/parent(), set and do write nothing to any existing writer
+//@   ensures quiet: forall w trig :: allocated(w) ==> rbuflen(w) == old(rbuflen(w)) && rbufdata(w) == old(rbufdata(w))
+// A11 (trusted, not proved): states are separate — executing on one state does not modify the list of
+// scope maps of another state's scope stack (ownership of backing arrays is not modelled).
+//@   trusts sep: forall p, i :: allocated(p) && p != old(s.scope) && 0 <= i && i < old(len(fld("stick.scopeStack", "scopes", p))) ==> fld("stick.scopeStack", "scopes", p)[i] == old(fld("stick.scopeStack", "scopes", p)[i])
+
+// C09: the block tables are searched in chain order (most derived first).
+// blockAt(s, i, name): table i defines the block; getBlock returns the first definition.
+//@ pred blockAt(s *state, i int, name string) = 0 <= i && i < len(s.blocks) && in(s.blocks[i], name)
 //@ func stick.(*state).getBlock
 //@   pure
-//@   loop 1 invariant true
+//@   ensures first: result != nil ==> (exists i :: blockAt(s, i, name) && s.blocks[i][name] == result && (forall k :: 0 <= k && k < i ==> !in(s.blocks[k], name)))
+//@   ensures none: result == nil ==> (forall i :: blockAt(s, i, name) ==> s.blocks[i][name] == nil)
+//@   loop 1 invariant rangeindex >= -1 && (forall k :: 0 <= k && k <= rangeindex ==> !in(s.blocks[k], name))
+// getParentBlock: the next definition after the block being rendered (s.current), nothing in between.
 //@ func stick.(*state).getParentBlock
 //@   pure
-//@   loop 1 invariant true
+//@   ensures next: result != nil ==> (exists i, j :: blockAt(s, i, name) && s.blocks[i][name] == s.current && i < j && blockAt(s, j, name) && s.blocks[j][name] == result && (forall k :: i < k && k < j ==> !in(s.blocks[k], name)))
+//@   loop 1 invariant rangeindex >= -1 && (currentFound ==> (exists i :: blockAt(s, i, name) && i <= rangeindex && s.blocks[i][name] == s.current && (forall k :: i < k && k <= rangeindex ==> !in(s.blocks[k], name))))
 //@ func stick.newState
 //@   ensures fresh: result != nil && fresh(result) && result.out == out && result.env == env && result.name == name && result.scope != nil && result.macros != nil && result.localMacros != nil && result.meta != nil && result.current == nil
 //@   ensures scope: len(result.scope.scopes) == 1 && result.scope.scopes[0] == ctx && len(result.blocks) == 0 && fresh(result.scope)
